@@ -116,3 +116,50 @@ func emitLeafURLCode(repo string) (string, error) {
 			"getParent": "returns an interface value", "Handler": "returns an interface value", "getSegment": "returns a pointer", "Route": "renders the route (C06's subject)"},
 	})
 }
+
+func init() { emitters["SegStringCode"] = emitSegStringCode }
+
+// Gen/SegStringCode.lean: `(*Segment).String` (definition.go) — the canonical text of a segment, computed once
+// (sync.Once) and remembered in the segment.
+func emitSegStringCode(repo string) (string, error) {
+	return translateType(repo, codeCfg{
+		pkg:          "./internal/route",
+		recvType:     "Segment",
+		namespace:    "Flamego.Gen.SegStringCode",
+		imports:      []string{"Flamego.Code.GoSem", "Flamego.Code.LibRoute"},
+		stringBytes:  true,
+		opaqueFields: true,
+		ptrOption:    true,
+		structs:      []string{"BindParameterValue", "BindParameter", "BindParameters", "SegmentElement"},
+		types:        map[string]string{"bytes.Buffer": "Lib.Buffer"},
+		lib:          map[string]string{"(*bytes.Buffer).String": "Lib.Buffer_String"},
+		libMut:       map[string]string{"(*bytes.Buffer).WriteString": "Lib.Buffer_WriteString"},
+		skip:         map[string]string{},
+	})
+}
+
+func init() { emitters["RouteStringCode"] = emitRouteStringCode }
+
+// Gen/RouteStringCode.lean: `(*Route).String` (definition.go) — the canonical text of a route: its segments' texts in
+// order, computed once and remembered. `s.String()` on a segment the route points to is Gen/SegStringCode's `String`; that
+// the call also fills the SEGMENT's own memo is not represented here (Props/C06Code proves that a segment's memo never
+// changes what its String returns).
+func emitRouteStringCode(repo string) (string, error) {
+	return translateType(repo, codeCfg{
+		pkg:          "./internal/route",
+		recvType:     "Route",
+		namespace:    "Flamego.Gen.RouteStringCode",
+		imports:      []string{"Flamego.Code.GoSem", "Flamego.Code.LibRoute", "Flamego.Gen.SegStringCode"},
+		stringBytes:  true,
+		opaqueFields: true,
+		ptrOption:    true,
+		types: map[string]string{"bytes.Buffer": "Lib.Buffer",
+			"*github.com/flamego/flamego/internal/route.Segment": "(Option Flamego.Gen.SegStringCode.Segment)"},
+		lib: map[string]string{"(*bytes.Buffer).String": "Lib.Buffer_String",
+			"(*github.com/flamego/flamego/internal/route.Segment).String": "segString"},
+		libMut: map[string]string{"(*bytes.Buffer).WriteString": "Lib.Buffer_WriteString"},
+		prelude: "/-- `s.String()` on a segment the route points to: the value Gen/SegStringCode's `String` returns -/\n" +
+			"def segString (s : Option Flamego.Gen.SegStringCode.Segment) : Bytes := (Flamego.Gen.SegStringCode.String' (GoSem.deref s)).1\n",
+		skip: map[string]string{},
+	})
+}
